@@ -10,7 +10,7 @@ Result: for every output row i the formal Taylor series of der_init[i].
 """
 from fractions import Fraction as Fr
 
-from .srcmodel import AnalysisError
+from .srcmodel import AnalysisError, NotAnOffset
 from .algebra import Poly, Rat, Z8, AlgebraError
 from . import ndarr
 from .ndarr import Arr, Unk, InterpRaise
@@ -234,6 +234,9 @@ class Pipeline(object):
             for v, xk, w in zip(vals, xs, z2v):
                 d = _as_poly(v) - xk + Poly.const(Z8.J) * _as_poly(w)
                 if d.atoms() & xatoms:
+                    wit = ndarr.offset_depends_on_point(d, xatoms)
+                    if wit is not None:
+                        raise NotAnOffset('evaluation point is not x + offset: %s [%s]' % (repr(v)[:200], where), dict(wit, at=where))
                     raise AnalysisError('evaluation point is not x + offset: %r [%s]' % (v, where))
                 off.append(d)
             key = tuple(off)
